@@ -12,22 +12,22 @@ import (
 
 // Node is an ordered JSON AST node carrying the exact spelling of its tokens.
 type Node struct {
-	Kind  byte    // 'o' object, 'a' array, 's' string, 'n' number, 't', 'f', '0' (null)
-	Lit   string  // number literal, or string literal including quotes
+	Kind  byte     // 'o' object, 'a' array, 's' string, 'n' number, 't', 'f', '0' (null)
+	Lit   string   // number literal, or string literal including quotes
 	Keys  []string // object: key literals including quotes
-	Elems []*Node // object member values / array elements
-	Pre   string  // whitespace before the value
-	Post  string  // whitespace after the value
-	In    string  // whitespace inside an empty container / after the colon for members (reused)
+	Elems []*Node  // object member values / array elements
+	Pre   string   // whitespace before the value
+	Post  string   // whitespace after the value
+	In    string   // whitespace inside an empty container / after the colon for members (reused)
 }
 
 // Cfg bounds generation.
 type Cfg struct {
 	MaxDepth   int
 	MaxElems   int
-	Whitespace bool // draw inter-token whitespace
-	Exotic     bool // escapes / multi-byte / surrogates in strings, exponent forms in numbers
-	BigNumbers bool // literals beyond float64 / int64 range
+	Whitespace bool     // draw inter-token whitespace
+	Exotic     bool     // escapes / multi-byte / surrogates in strings, exponent forms in numbers
+	BigNumbers bool     // literals beyond float64 / int64 range
 	KeyPool    []string // if set, object keys are mostly drawn from this pool (Go strings, spelled freshly)
 }
 
